@@ -308,6 +308,10 @@ pub const PI: f64 = core::f64::consts::PI;
 pub const INFINITY: f64 = f64::INFINITY;
 #[verifier::external_body]
 pub const NAN: f64 = f64::NAN;
+#[verifier::external_body]
+pub const NEG_INFINITY: f64 = f64::NEG_INFINITY;
+pub broadcast axiom fn ax_consts_ninf()
+    ensures #![trigger ninf(NEG_INFINITY)] ninf(NEG_INFINITY);
 pub broadcast axiom fn ax_consts()
     ensures
         #![trigger fin(PI)] #![trigger rv(PI)]
@@ -335,6 +339,6 @@ pub broadcast group group_m2 {
     ax_add_nonfin, ax_sub_nonfin, ax_mul_nonfin,
     ax_fneg_spec, ax_abs, ax_signum, ax_rem_euclid, ax_max, ax_to_radians, ax_pi,
     ax_sin, ax_cos, ax_pyth, ax_atan2, ax_sqrt,
-    ax_consts, ax_consts_inf, ax_consts_nan, ax_i8_cast,
+    ax_consts, ax_consts_inf, ax_consts_nan, ax_consts_ninf, ax_i8_cast,
 }
 } // mod fl
